@@ -7,7 +7,7 @@ OPT_QUICK_ALL = True      # every partition also in a child interpreter started 
 LEVEL = "exploration"
 TECHNIQUE = "complete enumeration of the five opcode tables, their service-action tables, the status table and all 256 opcode values against an independent T10 table"
 RULE = ("every named entry of spc/sbc/ssc/smc/mmc, every entry of every service-action table, every SCSI_STATUS entry, every pair "
-        "of sets sharing a name, every name of any set looked up on every set (refused, or the T10 value; tables unchanged afterwards), every table walked again after each assignment of another value or type to a public attribute (opcode, cdb, page_code, result, buffers) of a command built from each entry, and init_cdb for each of the 256 opcode values, also carried by OpCode objects of every shipped name (and names of the 32-byte / variable-length commands) with the entry's own service-action table. Non-trivial = the oracle has its own T10 value "
+        "of sets sharing a name, every name of any set looked up on every set (refused, or the T10 value; tables unchanged afterwards), copies (copy, deepcopy) of every entry and of a command built from it, every table walked again after each assignment of another value or type to a public attribute (opcode, cdb, page_code, result, buffers) of a command built from each entry, and init_cdb for each of the 256 opcode values, also carried by OpCode objects of every shipped name (and names of the 32-byte / variable-length commands) with the entry's own service-action table. Non-trivial = the oracle has its own T10 value "
         "for the entry (or a length/refusal expectation for the opcode value); distinct = distinct (kind, set, name|value).")
 ASSUMPTIONS = [
     "oracle: vf/spec/opcodes.py transcribed from T10 op-num / SPC-4 / SBC-3 / SSC-4 / SMC-3 / MMC-6 / SAM-5 (cross-checked at setup against scsi/scsi.h and linux/cdrom.h)",
@@ -141,8 +141,37 @@ def check_after_use(name, st, key, i):
     return []
 
 
+def check_clone(setname, key):
+    """copies of a table entry, and of a command built from it, carry the T10 value of the name they were taken under"""
+    import copy
+    from pyscsi.pyscsi.scsi_command import SCSICommand
+    E, sets = _sets()
+    op = getattr(sets[setname], key)
+    want = {T.t10_value(setname, key)} - {None} or t10_any(key)
+    if not want:
+        return []
+    out = []
+    clones = [("copy.copy of the entry", lambda: copy.copy(op)), ("copy.deepcopy of the entry", lambda: copy.deepcopy(op))]
+    if T.cdb_length(op.value) is not None:
+        clones += [("the opcode of a deep-copied command", lambda: copy.deepcopy(SCSICommand(op, 0, 0)).opcode),
+                   ("the opcode of a copied command", lambda: copy.copy(SCSICommand(op, 0, 0)).opcode)]
+    for label, fn in clones:
+        try:
+            v = fn().value
+        except Exception as e:   # noqa: BLE001
+            out.append(("clone/raises/%s.%s" % (setname, key), "%s.%s: %s raised %s: %s" % (setname, key, label, type(e).__name__, e)))
+            continue
+        if v not in want:
+            out.append(("clone/value/%s.%s" % (setname, key), "%s.%s: %s has value %#04x, T10 assigns %s" % (setname, key, label, v, sorted("%#04x" % x for x in want))))
+    if getattr(sets[setname], key).value not in want:
+        out.append(("clone/table_changed/%s.%s" % (setname, key), "%s.%s changed by copying it" % (setname, key)))
+    return out
+
+
 def run_case(case):
     kind = case[0]
+    if kind == "clone":
+        return check_clone(case[1], case[2])
     if kind == "after_use":
         return check_after_use(*case[1:])
     if kind == "op":
@@ -273,6 +302,7 @@ def run_partition(part, tier, seed):
             if not known:
                 unasserted.append("%s.%s" % (s, key))
             do(["op", s, key], nontrivial=known)
+            do(["clone", s, key], nontrivial=known)
             op = getattr(sets[s], key)
             for sakey in op.serviceaction.keys:
                 ksa = sakey in T.SA_ALL
